@@ -945,6 +945,129 @@ fn guarded_check<P: Part>(p: &P, case: &P::Case) -> Outcome {
     }
 }
 
+// ------------------------------------------------------------------------------------------
+// coverage-guided search over a part's proptest strategy (libFuzzer drives the random stream)
+// ------------------------------------------------------------------------------------------
+
+/// One case of a proptest strategy built from a fuzzer's byte string: proptest's `PassThrough` generator hands
+/// out the bytes as the random stream (zeros once they are used up), so the strategy — and with it every
+/// soundness restriction it builds in — stays the decoder, and libFuzzer's coverage feedback steers it.
+pub fn case_from_bytes<T: Debug>(strategy: &BoxedStrategy<T>, data: &[u8]) -> Option<T> {
+    use proptest::strategy::ValueTree;
+    use proptest::test_runner::{Config, RngAlgorithm, TestRng, TestRunner};
+    // rand's uniform sampling rejects an all-zero stream forever, and PassThrough hands out zeros once the bytes are
+    // used up: the input is therefore continued by a pseudo-random tail derived from the input itself (deterministic).
+    const TOTAL: usize = 192 * 1024;
+    let mut buf: Vec<u8> = Vec::with_capacity(TOTAL.max(data.len()));
+    buf.extend_from_slice(data);
+    let mut x = data.iter().fold(0xcbf29ce484222325u64, |h, b| (h ^ *b as u64).wrapping_mul(0x100000001b3));
+    while buf.len() < TOTAL {
+        x = mix(x, buf.len() as u64);
+        buf.extend_from_slice(&x.to_le_bytes());
+    }
+    let rng = TestRng::from_seed(RngAlgorithm::PassThrough, &buf);
+    let mut runner = TestRunner::new_with_rng(Config { failure_persistence: None, ..Config::default() }, rng);
+    strategy.new_tree(&mut runner).ok().map(|t| t.current())
+}
+
+/// Signatures of the open known findings (what a fuzz target tolerates so that it keeps searching behind them).
+pub fn open_known_sigs_of(property: &str) -> HashSet<String> {
+    let text = std::fs::read_to_string("/verif/known_findings.json").unwrap_or_default();
+    let v: Value = serde_json::from_str(&text).unwrap_or(Value::Null);
+    let mut out = HashSet::new();
+    if let Some(fs) = v.get("findings").and_then(|f| f.as_array()) {
+        for f in fs {
+            if f.get("property").and_then(|x| x.as_str()) == Some(property) && f.get("status").and_then(|x| x.as_str()) == Some("open") {
+                for sg in f.get("sigs").and_then(|x| x.as_array()).into_iter().flatten() {
+                    if let Some(t) = sg.as_str() {
+                        out.insert(t.to_string());
+                    }
+                }
+            }
+        }
+    }
+    out
+}
+
+/// Body of a libFuzzer target: bytes -> case of `p`'s (thorough-tier) strategy -> `p.check`; returns the
+/// failures that are not open known findings. Call `install_panic_hook()` once before (libfuzzer-sys installs
+/// an aborting hook, the checks need their `catch`).
+pub fn fuzz_one<P: Part>(p: &P, strategy: &BoxedStrategy<P::Case>, data: &[u8], known: &HashSet<String>) -> Vec<Failure> {
+    let Some(case) = case_from_bytes(strategy, data) else { return vec![] };
+    let o = match catch(|| p.check(&case)) {
+        Ok(o) => o,
+        Err(site) => {
+            let mut o = Outcome::new();
+            o.fail(format!("uncaught-{}", site.sig()), format!("panic escaped the property's own guards at {}:{}: {}", site.file, site.line, site.msg));
+            o
+        }
+    };
+    o.failures.into_iter().filter(|f| !known.contains(&f.sig)).collect()
+}
+
+/// The cases a campaign found, re-judged by the ordinary (stable-toolchain) runner under their own part name.
+pub struct FuzzFound<'a, P: Part> {
+    pub inner: &'a P,
+    pub name: &'static str,
+}
+
+impl<'a, P: Part> Part for FuzzFound<'a, P> {
+    type Case = P::Case;
+    fn name(&self) -> &'static str {
+        self.name
+    }
+    fn strategy(&self, tier: Tier) -> BoxedStrategy<Self::Case> {
+        self.inner.strategy(tier)
+    }
+    fn cases(&self, _tier: Tier) -> u32 {
+        0
+    }
+    fn check(&self, case: &Self::Case) -> Outcome {
+        self.inner.check(case)
+    }
+    fn serial(&self) -> bool {
+        self.inner.serial()
+    }
+    fn replay_repeats(&self) -> u32 {
+        self.inner.replay_repeats()
+    }
+    fn describe(&self, case: &Self::Case) -> Value {
+        self.inner.describe(case)
+    }
+}
+
+impl Session {
+    /// Thorough tier: a fixed-work libFuzzer campaign (`jobs` processes x `runs` executions, oracle inside the
+    /// target, random seed corpus) on fuzz target `target`, whose decoder is `p`'s thorough-tier strategy. Crash
+    /// files are decoded with the same strategy and re-judged here on the stable build before they count.
+    /// Every tier: saved crash files of earlier campaigns are replayed the same way. `name` is the part name in the
+    /// evidence ("libfuzzer:<part>").
+    pub fn fuzz_campaign<P: Part>(&mut self, p: &P, name: &'static str, target: &str, runs: u64, jobs: u32, max_len: u32) {
+        let part = FuzzFound { inner: p, name };
+        let scratch = std::env::var("KVH_ROOT").map_or(false, |r| r != "/verif");
+        let strategy = p.strategy(Tier::Thorough);
+        let decode = |paths: &[std::path::PathBuf]| -> Vec<P::Case> { paths.iter().filter_map(|f| std::fs::read(f).ok()).filter_map(|b| case_from_bytes(&strategy, &b)).collect() };
+        let mut files: Vec<std::path::PathBuf> = if scratch { vec![] } else { crate::fuzzrun::saved_inputs(target) };
+        if self.tier == Tier::Thorough && !self.is_replay() && !scratch {
+            let c = crate::fuzzrun::run_jobs(target, runs, jobs, self.seed, max_len, None);
+            eprintln!("libfuzzer {target}: executed {} units in {jobs} jobs, ok={}\n{}", c.executed_units, c.ok, c.log_tail);
+            println!("libfuzzer {target}: {} executions in {jobs} processes, {} crash file(s)", c.executed_units, c.new_artifacts.len());
+            for a in c.new_artifacts {
+                if !files.contains(&a) {
+                    files.push(a);
+                }
+            }
+            self.run_enum(&part, decode(&files).into_iter(), false);
+            self.note_inner(name, c.executed_units);
+            if !c.ok && c.executed_units == 0 {
+                self.part_stats(name).skipped.entry("libfuzzer-unavailable").and_modify(|n| *n += 1).or_insert(1);
+            }
+        } else {
+            self.run_enum(&part, decode(&files).into_iter(), false);
+        }
+    }
+}
+
 /// Monotone index mapping (keeps proptest shrinking convergent): u16 selector -> 0..len
 pub fn pick_idx(sel: u16, len: usize) -> usize {
     if len == 0 {
